@@ -130,6 +130,13 @@ class Engine(object):
             self._classinfo = ClassInfo(self.repo.root)
         return self._classinfo
 
+    def class_id(self, qual):
+        ci = self.classinfo()
+        if qual in ci.classes:
+            return ci.cid(qual)
+        self._extra_ids = getattr(self, "_extra_ids", {})
+        return self._extra_ids.setdefault(qual, 100000 + len(self._extra_ids))
+
     def isinstance_hook(self, run, st, obj, cls, node):
         from .terms import And, Not, Or
 
@@ -154,6 +161,12 @@ class Engine(object):
         # generic: allocate a fresh object and run __init__ inline
         ref = run.fresh("new_" + cv.qual.split(".")[-1], REF)
         st.ghost["#allocated"] = set(st.ghost.get("#allocated", ())) | {str(ref)}
+        # a newly allocated object is distinct from every object that is already named in the environment
+        from .terms import Ne
+
+        for v in list(st.env.values()):
+            if isinstance(v, ObjV):
+                st.assume(Ne(ref, v.term))
         obj = ObjV(ref, cv.qual)
         init = self.find_method(cv.qual, "__init__")
         if init:
